@@ -17,7 +17,7 @@ RULE = ("(a) random programs x wild renderings (blank lines, comment lines, trai
         "raw line breaks inside quoted strings) x eol in {LF, CRLF, CR} x parser histories of 0-3 earlier texts; (b) every fault kind "
         "x random position in random valid EEMS models, via API and CLI; distinct by (eol, history kinds, node kinds) / (fault kind, "
         "command, parameter, spread)")
-REQUIRED_COUNTERS = ["tree_nodes_compared", "histories_with_reuse", "fault_linenos_checked", "cli_marker_lines_checked", "eems2_fault_linenos_checked", "runtime_fault_linenos_checked", "lineless_runtime_errors_checked", "cycle_error_linenos_checked", "cli_runs_on_a_path_used_before", "user_library_fault_linenos_checked"]
+REQUIRED_COUNTERS = ["tree_nodes_compared", "histories_with_reuse", "fault_linenos_checked", "cli_marker_lines_checked", "eems2_fault_linenos_checked", "runtime_fault_linenos_checked", "lineless_runtime_errors_checked", "cycle_error_linenos_checked", "cli_runs_on_a_path_used_before", "user_library_fault_linenos_checked", "reruns_after_a_runtime_fault", "repeated_argument_linenos_checked"]
 ASSUMPTIONS = ["the head 'Result = Command(' is kept on one line (the statement says where a node starts; the code reports the command-name token)",
                "for a fault inside a multi-line list both the argument's first line and the element's own line are accepted",
                "errors raised during execution with lineno None are not judged", "CR-only texts are generated without comments"]
@@ -76,6 +76,8 @@ def cases(ctx):
         yield {"kind": "lineless", "fault": sorted(LINELESS)[i % len(LINELESS)], "rseed": rng.randrange(10 ** 9)}
     for i in range(ctx.n(60, 3000)):
         yield {"kind": "cycle", "rseed": rng.randrange(10 ** 9)}
+    for i in range(ctx.n(30, 1500)):
+        yield {"kind": "duparg", "rseed": rng.randrange(10 ** 9), "fault": ["missing-result", "bad-path", "wrong-kind"][i % 3]}
     for i in range(ctx.n(40, 2000)):
         yield {"kind": "userfault", "fault": ["scalar-out", "raise-syntax", "raise-json", "raise-plain", "scalar-out"][i % 5], "rseed": rng.randrange(10 ** 9)}
     for i in range(ctx.n(30, 600)):
@@ -408,6 +410,17 @@ def run_runtime(ctx, case):
         return
     ctx.count("runtime_fault_linenos_checked")
     got = getattr(err, "lineno", None)
+    # the program run again (nothing was repaired): the same error, carrying the same line
+    err2 = None
+    try:
+        p.run()
+    except Exception as e:
+        err2 = e
+    ctx.count("reruns_after_a_runtime_fault")
+    if type(err2).__name__ != want or getattr(err2, "lineno", None) != got:
+        ctx.fail("runtime-fault:%s:second-run-reports-%s" % (kind, "another-line" if type(err2).__name__ == want else "another-error-" + type(err2).__name__),
+                 {"first": [want, got], "second": [type(err2).__name__, getattr(err2, "lineno", None)], "text": text})
+        return
     if got is not None and got not in (start, argline):
         ctx.fail("runtime-fault:%s:line-of-another-command" % kind, {"got": got, "own_command_line": start, "own_argument_line": argline, "text": text})
     elif got is not None and case["rseed"] % 2 == 0:
@@ -465,6 +478,46 @@ def run_lineless(ctx, case):
     got = getattr(err, "lineno", None)
     if got is not None and got not in own:
         ctx.fail("runtime-fault:%s:line-of-another-command" % kind, {"got": got, "own_command_lines": sorted(own), "source_line": lines[got - 1] if 0 < got <= len(lines) else None, "text": text})
+
+
+def run_duparg(ctx, case):
+    """One argument name given twice in a command, on different lines, the last value faulty: whatever the error says, its
+    line is one of the two occurrences' (or the command's) - and if it names an occurrence, it is the faulty (last) one."""
+    from mpilot.program import Program
+    from mpilot.exceptions import MPilotError
+    rng = random.Random(case["rseed"])
+    d = ctx.scratch()
+    with open(os.path.join(d, "in.csv"), "w") as f:
+        f.write("X0\n1\n2\n3\n")
+    pad = [""] * rng.randint(0, 3)
+    if case["fault"] == "missing-result":
+        block = ['C = Copy(', '    InFieldName = A,'] + pad + ['    InFieldName = Nope', ')']
+    elif case["fault"] == "bad-path":
+        block = ['C = EEMSRead(', '    InFileName = "in.csv",', '    InFieldName = "X0",'] + pad + ['    InFileName = "missing/none.csv"', ')']
+    else:
+        block = ['C = WeightedSum(', '    InFieldNames = [A],', '    Weights = [1],'] + pad + ['    Weights = heavy', ')']
+    pre = ["# model"] * rng.randint(0, 2) + ['A = EEMSRead(InFileName = "in.csv", InFieldName = "X0")']
+    lines = pre + block if rng.random() < 0.5 else block + [""] + pre
+    text = "\n".join(lines)
+    start = lines.index(block[0]) + 1
+    last = start + len(block) - 2
+    first = start + (1 if case["fault"] != "wrong-kind" else 2)
+    ctx.feature(("duparg", case["fault"], len(pad)))
+    err = None
+    try:
+        Program.from_source(text, working_dir=d).run()
+    except Exception as e:
+        err = e
+    if not isinstance(err, MPilotError):
+        ctx.dontcare("repeated argument name: %s" % (type(err).__name__ if err else "accepted"))
+        return
+    ctx.count("fault_linenos_checked")
+    ctx.count("repeated_argument_linenos_checked")
+    got = getattr(err, "lineno", None)
+    if got is not None and got == first and first != last:
+        ctx.fail("fault:repeated-argument-name:line-of-the-other-occurrence", {"error": type(err).__name__, "got": got, "faulty_occurrence_line": last, "text": text})
+    elif got is not None and got not in (start, last):
+        ctx.fail("fault:repeated-argument-name:lineno-is-other-line", {"error": type(err).__name__, "got": got, "acceptable": [start, last], "text": text})
 
 
 def run_userfault(ctx, case):
@@ -618,6 +671,8 @@ def run_case(ctx, case):
         return run_cycle(ctx, case)
     if case["kind"] == "userfault":
         return run_userfault(ctx, case)
+    if case["kind"] == "duparg":
+        return run_duparg(ctx, case)
     if case["kind"] == "v2fault":
         return run_v2fault(ctx, case)
     return run_fault(ctx, case)
